@@ -327,8 +327,14 @@ impl UperWriter {
         if const_map_or!(self.scope, Scope::encode_as_open_type_field, false) {
             let mut writer = UperWriter::with_capacity(512);
             let result = f(&mut writer)?;
-            self.bits
-                .write_octetstring(None, None, false, writer.bits.content())?;
+            if writer.bits.bit_len() == 0 {
+                // ITU-T X.691 | ISO/IEC 8825-2:2015, chapter 11.2.1: an empty encoding is
+                // replaced by a single zero octet
+                self.bits.write_octetstring(None, None, false, &[0x00])?;
+            } else {
+                self.bits
+                    .write_octetstring(None, None, false, writer.bits.content())?;
+            }
             Ok(result)
         } else {
             f(self)
@@ -486,8 +492,14 @@ impl Writer for UperWriter {
                 // TODO performance
                 let mut writer = UperWriter::with_capacity(512);
                 choice.write_content(&mut writer)?;
-                w.bits
-                    .write_octetstring(None, None, false, writer.byte_content())
+                if writer.bit_len() == 0 {
+                    // ITU-T X.691 | ISO/IEC 8825-2:2015, chapter 11.2.1: an empty encoding is
+                    // replaced by a single zero octet
+                    w.bits.write_octetstring(None, None, false, &[0x00])
+                } else {
+                    w.bits
+                        .write_octetstring(None, None, false, writer.byte_content())
+                }
             } else {
                 choice.write_content(w)
             }
